@@ -551,3 +551,15 @@ def make_p_state_consistent(ex):
                     return ("other-key-changed", "a key other than the operation's own key changed", dict(pred="state_consistent"))
         return None
     return p
+
+
+def p_sentinel_only_on_rollover(sw, f):
+    """C20: an end marker (all-zero header) is only written to a segment that is being left: the next
+    WAL event after its write+sync is the opening of another segment, never a further record"""
+    ios = [e for _, e in _io(f)]
+    for k, e in enumerate(ios):
+        if e["op"] == "write" and e["path"][0] == "wal" and any("sentinel" in str(d) or d == ("bytes", 44) for d in e.get("data", [])):
+            rest = [x for x in ios[k + 1:] if x["path"][0] == "wal" and x["path"] == e["path"] and x["op"] == "write"]
+            if rest:
+                return ("record-after-sentinel", "a record is appended to a segment after its end marker", dict(pred="sentinel_on_rollover"))
+    return None
